@@ -397,6 +397,9 @@ class Exec:
             h = self.world.attr_handler(base.cls, attr)
             if h is not None:
                 return h(self, st, base, node, spec)
+            ca = self.world.class_attr(base.cls, attr)
+            if ca is not None:
+                return self.ev(ca, St({}, st.pc, st.dec), spec)
             m = self.world.find_method(base.cls, attr)
             if m is not None:
                 mcls, fnode = m
@@ -482,7 +485,19 @@ class Exec:
             i = z3.simplify(zint(idx))
             items = base.items if isinstance(base, TupV) else [it for _, it in base.items]
             if isinstance(base, ListV) and not all(z3.is_true(z3.simplify(g)) for g, _ in base.items):
-                raise Unsupported("index into a guarded list")
+                if not z3.is_int_value(i) or i.as_long() < 0:
+                    raise Unsupported("symbolic/negative index into a guarded list")
+                want = i.as_long()
+                cands = []
+                for j, (g, it) in enumerate(base.items):
+                    before = z3.Sum(*[z3.If(gg, 1, 0) for gg, _ in base.items[:j]]) if j else z3.IntVal(0)
+                    cands.append((z3.And(g, before == want), it))
+                if not spec:
+                    self.oblige("index", "index", st, z3.Or(*[c_ for c_, _ in cands]), node)
+                res = cands[-1][1]
+                for c_, it in reversed(cands[:-1]):
+                    res = merge_val(c_, it, res)
+                return res
             if z3.is_int_value(i):
                 k = i.as_long()
                 if not (-len(items) <= k < len(items)):
@@ -511,6 +526,15 @@ class Exec:
                 return h(self, st, base, idx, node, spec)
         if isinstance(base, PyConst) and isinstance(base.v, dict):
             return self.world.const_dict_get(self, base.v, idx, st, node, spec)
+        if isinstance(base, ObjV) and base.cls == "__dict__":
+            items = [it for _, it in base.fields["items"].items]
+            conds = [self.equal(idx, kv.items[0], st, node) for kv in items]
+            if not spec:
+                self.oblige("key_present", "index", st, z3.Or(*conds) if conds else z3.BoolVal(False), node)
+            res = items[-1].items[1]
+            for c_, kv in zip(reversed(conds[:-1]), reversed(items[:-1])):
+                res = merge_val(c_, kv.items[1], res)
+            return res
         raise Unsupported(f"index into {base!r} at line {getattr(node, 'lineno', '?')}")
 
     def e_Call(self, n, st, spec, b):
